@@ -87,8 +87,12 @@ def impl(case):
     trajs = [np.array(t) for t in G.expand(case)]
     st = mh.StateTraj(trajs)
     states = [int(s) for s in st.states]
-    cm, perm = ts._get_cummat(trajs, case['lag'])
-    out = {'states': states, 'cm': [[float(x).hex() for x in r] for r in cm], 'perm': [[int(x) for x in r] for r in perm]}
+    out = {'states': states}
+    try:
+        cm, perm = ts._get_cummat(trajs, case['lag'])
+        out.update({'cm': [[float(x).hex() for x in r] for r in cm], 'perm': [[int(x) for x in r] for r in perm]})
+    except (AttributeError, TypeError) as exc:
+        out['hook_local'] = '_get_cummat: %s' % str(exc)[:120]
     steps = case['steps']
 
     def reseed():
@@ -160,6 +164,21 @@ def judge(case, ibc, answers):
             continue
         states = r['states']
         n = len(states)
+        if r.get('hook_local'):
+            P('correspondence', 'instrumented private helper no longer matches: %s' % r['hook_local'])
+            # what can still be decided without the sampling table
+            for name in ('wt', 'tt'):
+                got, h = r[name + '_list'], r[name + '_hist']
+                if isinstance(got, list):
+                    if got != sorted(got):
+                        P('impl-vs-spec', '%s list is not in ascending order: %s' % (name, C.short(got, 100)), 'msm-times-unsorted')
+                    if any(v % case['lag'] for v in got):
+                        P('impl-vs-spec', '%s times are not multiples of the lag time' % name)
+                if isinstance(h, dict) and 'edges' in h and h['edges'] != [k * case['lag'] for k in range(len(h['edges']))]:
+                    P('impl-vs-spec', '%s edges %s are not consecutive multiples of the lag' % (name, h['edges'][:6]))
+            if r['paths'] != r['paths_ref']:
+                P('impl-vs-spec', 'msm.estimate_paths is not the md pathway extraction of the chain from the same generator state')
+            continue
         cm = [[Fraction(float.fromhex(x)) for x in row] for row in r['cm']]
         if answers:
             # the sampling table itself: every observed transition keeps an interval of length T_ij
